@@ -95,8 +95,8 @@ class SymFaults(object):
             kind = self.dead[op]
             World.cur.log.append(('fault', op, -1, kind))
             if kind == 'oserror':
-                raise _socket.error(104, 'injected socket error in %s (socket is dead)' % op)
-            raise InjectedError('injected non-socket exception in %s (socket is dead)' % op)
+                raise _socket.error(104, 'injected socket error in %s (socket is dead) {0} {} {x!r} %%s %%(y)d' % op)
+            raise InjectedError('injected non-socket exception in %s (socket is dead) {0} {} {x!r} %%s %%(y)d' % op)
         if op not in self.ops or self.left <= 0:
             return
         if self.only_sock is not None and sock is not None and sock.id != self.only_sock:
@@ -115,8 +115,8 @@ class SymFaults(object):
             self.dead[op] = kind
         World.cur.log.append(('fault', op, n, kind))
         if kind == 'oserror':
-            raise _socket.error(104, 'injected socket error in %s' % op)
-        raise InjectedError('injected non-socket exception in %s' % op)
+            raise _socket.error(104, 'injected socket error in %s {0} {} {x!r} %%s %%(y)d' % op)
+        raise InjectedError('injected non-socket exception in %s {0} {} {x!r} %%s %%(y)d' % op)
 
 
 class Script(object):
@@ -244,9 +244,9 @@ class FakeSocket(object):
         if s.remaining() == 0:
             if s.end == 'error':
                 self.reset = True
-                raise _socket.error(104, 'Connection reset by peer (injected)')
+                raise _socket.error(104, 'Connection reset by peer (injected) {0} {} {x!r} %s %(y)d')
             if s.end == 'exception':
-                raise RuntimeError('injected non-socket exception')
+                raise RuntimeError('injected non-socket exception {0} {} {x!r} %s %(y)d')
             if s.end == 'eof':
                 s.eof_delivered = True
                 return []
